@@ -55,6 +55,9 @@ def install(prefix: t.Optional[str] = None) -> None:
     S.prefix = prefix
     _mon.use_tool_id(TOOL, "verif-budget")
     _mon.register_callback(TOOL, _mon.events.LINE, _line_cb)
+    # enabled once and left on: toggling set_events re-instruments every code object on each call (measured: the
+    # dominant cost); when no budgeted run is active the callback only costs a flag test on dpapi_ng lines.
+    _mon.set_events(TOOL, _mon.events.LINE)
     S.installed = True
 
 
@@ -85,12 +88,10 @@ def run(limit: int, fn: t.Callable[..., t.Any], *args: t.Any, kdf_limit: int = 0
     S.kdf_calls = 0
     S.kdf_limit = kdf_limit
     S.active = True
-    _mon.set_events(TOOL, _mon.events.LINE)
     try:
         res = fn(*args, **kw)
     finally:
         S.active = False
-        _mon.set_events(TOOL, 0)
         S.kdf_limit = 0
     return res, S.count, S.kdf_calls
 
